@@ -123,6 +123,10 @@ func canon(s []span) ([]span, error) {
 		for j := i + 1; j < len(s); j++ {
 			next := s[j]
 			if !this.max.equal(next.min) { // If equal, we can merge unless both are open (handled below)
+				if this.max.lessThan(next.min) && (this.maxOpen || next.minOpen) {
+					// Disjoint, and an excluded bound adjoins nothing.
+					break
+				}
 				if len(this.max.pre) == 0 {
 					maxPlusOne := this.max.copy()
 					err := maxPlusOne.inc()
